@@ -18,8 +18,66 @@ TRUSTED = B.TRUSTED
 ASSUMPTIONS = B.ASSUMPTIONS
 
 
+GRID_SCOPES = ["read", "provide", "actuate", "create", "read provide", "read create", "read actuate",
+               "actuate:Vehicle.Other read", "provide:Vehicle.Other read", "create:Vehicle.Other read",
+               "read:Vehicle.Grid.Act0 provide:Vehicle.Grid.Act0", "actuate:Vehicle.Grid.Act1 read",
+               "read:Vehicle.Grid", "provide:Vehicle.Grid.*", "actuate:Vehicle.*.Act0 read:Vehicle"]
+
+
+def grid_scenario(rng):
+    """small-scope grid: principals holding one action, pairs of actions, or an action on another branch (and one
+    token that expires) x every mutating operation of the core API (value, target, clearing a target, description,
+    actuate, batch actuate through a live provider, provide, register), with the whole state dumped after each"""
+    from .. import enc as E
+    L = [[H.PERM, 0] + E.s(H.ALL_SCOPE)]
+    scopes = rng.sample(GRID_SCOPES, 6)
+    for sc in scopes:
+        L.append([H.PERM, 0] + E.s(sc))
+    L.append([H.PERM, 1] + E.s(H.ALL_SCOPE))           # expires at TICK
+    nprin = len(scopes) + 2
+    for i in range(3):
+        L.append([H.ADD, 0] + E.s("Vehicle.Grid.Act%d" % i) + [4, rng.randrange(3), 2, 0, 0, 0])
+    L.append([H.ADD, 0] + E.s("Vehicle.Grid.Sen") + [4, rng.randrange(3), 0, 0, 0, 0])
+    L.append([H.PROVIDE, 0, 2, 0, 1])                  # live provider for Act0, Act1 (Act2 stays unowned)
+    i32 = lambda: [E.I32, rng.randrange(1000)]
+    L += [[H.UPDATE, 0, 1, 0, 3] + i32() + i32(), [H.UPDATE, 0, 1, 1, 2] + i32(), [H.DUMP]]
+    if rng.random() < 0.5:
+        L.append([H.SUB, 0, 0, 0, 4, 0, 3, 1, 3, 2, 3, 3, 1])
+    ticked = False
+    for _ in range(rng.randrange(18, 30)):
+        p = rng.randrange(1, nprin)
+        if not ticked and rng.random() < 0.06:
+            L.append([H.TICK])
+            ticked = True
+            continue
+        a = rng.choice([0, 0, 1, 2])
+        k = rng.randrange(9)
+        if k == 0:
+            op = [H.UPDATE, p, 1, rng.choice([a, 3]), 1] + i32()
+        elif k == 1:
+            op = [H.UPDATE, p, 1, a, 2] + i32()
+        elif k == 2:
+            op = [H.UPDATE, p, 1, a, 4]
+        elif k == 3:
+            op = [H.UPDATE, p, 2, a, 3] + i32() + i32() + [3, 1] + i32()
+        elif k == 4:
+            op = [H.UPDATE, p, 1, a, 8]
+        elif k == 5:
+            op = [H.ACTUATE, p, a] + i32()
+        elif k == 6:
+            ids = rng.sample([0, 1, 2], rng.randrange(1, 3)) if rng.random() < 0.5 else rng.sample([0, 1], rng.randrange(1, 3))
+            op = [H.BATCH, p, len(ids)] + sum(([i] + i32() for i in ids), [])
+        elif k == 7:
+            op = [H.PROVIDE, p, 1, 2]
+        else:
+            op = [H.ADD, p] + E.s("Vehicle.Grid.New%d" % rng.randrange(3)) + [4, 1, 0, 0, 0, 0]
+        L += [op, [H.DUMP]]
+    return L
+
+
 def generate(rng, tier, n=None, **kw):
-    return B.generate(rng, tier, weights=WEIGHTS, n=n, **GEN_KW)
+    cases = B.generate(rng, tier, weights=WEIGHTS, n=n, **GEN_KW)
+    return cases + [("grid%d" % i, grid_scenario(rng)) for i in range(60 if tier == "quick" else 1200)]
 
 
 GEN_KW = {}
